@@ -37,7 +37,10 @@ RELS = {
     "tucker_als": ["R1", "R1p", "R2", "R4", "R5", "R6", "R7"],
     "gcp_lbfgsb": ["R1", "R1p", "R2", "R3", "R4"],
 }
-TOL = {"R1": 1e-12, "R1p": 1e-12, "R1f": 1e-12, "R2": 1e-9, "R3": 1e-12, "R4": 1e-12, "R5": 1e-8, "R6": 1e-8, "R7": 1e-8}
+# R1/R1p/R2/R3 vary only what the simulator owns (seed, call history, output sink, clock): the arithmetic of
+# the run is the same, so the results must be bit-identical (0.0). A print-only branch that touches the
+# running model shows up as a last-bit difference long before it shows up at any rounding tolerance.
+TOL = {"R1": 0.0, "R1p": 0.0, "R1f": 0.0, "R2": 0.0, "R3": 0.0, "R4": 1e-12, "R5": 1e-8, "R6": 1e-8, "R7": 1e-8}
 FIT_TOL = 1e-6
 PQNR_KNOWN_MSG = "ERROR: L-BFGS first iterate is bad"
 
@@ -449,8 +452,26 @@ class EngineC18:
         elif np.isfinite(d):
             res.bump(f"probe:diff_{op}_1e{int(np.floor(np.log10(d))):+03d}")
         if not (d <= tol):
-            if op in ("R5", "R6", "R7", "R2", "R1p") and self._min_gap(base, other) < 1e-6:
+            if op in ("R5", "R6", "R7") and self._min_gap(base, other) < 1e-6:
                 raise Skip("eigen_gap_below_1e-6")
+            if op in ("R4", "R5", "R6", "R7"):
+                # conditioning guard: how far does the base run itself move when its data are perturbed in the
+                # 13th digit? A variant whose arithmetic differs in the last bits cannot be expected to agree
+                # better than that (observed: full-rank 2x3 matrix, rank-2 CP-ALS, 1.9e-8 after one sweep).
+                x = np.asarray(dec(init["x"]), dtype=float)
+                noise = np.random.RandomState(init["np_seed"] & 0xFFFF).uniform(-1.0, 1.0, x.shape)
+                init_p = dict(init)
+                init_p["x"] = enc(x * (1.0 + 1e-13 * noise))
+                pv = dict(base_v)
+                if "guess" in var and op != "R4":
+                    pv["guess"] = base["guess_out"]
+                try:
+                    pert = self._call(init_p, pv)
+                    d_self = self._rel(base["full"], pert["full"])
+                except Exception:  # noqa: BLE001
+                    d_self = float("inf")
+                if d <= 100.0 * d_self:
+                    raise Skip("ill_conditioned_problem")
             return V("same_model", f"relative difference {d:.3e} > {tol:g} between base and variant {step}")
         if op in ("R1", "R1p", "R3", "R4") and base["iters"] != other["iters"]:
             return V("same_iteration_count", f"{base['iters']} vs {other['iters']} iterations")
